@@ -564,7 +564,13 @@ def _decl_class(st, name, cdef, rsym, rname, quantum):
         kw["ref_unit_name"] = "Name of " + name
     if quantum != "-":
         kw["quantum"] = to_dec_or_frac(parse_rat(quantum))
-    cls = QuantityMeta(name, (Quantity,), {}, **kw)
+    # the functional form; every other declaration of a case hands over the
+    # SAME namespace dict (a type must not share state through it)
+    st.n_classes = getattr(st, "n_classes", 0) + 1
+    if not hasattr(st, "clsdict"):
+        st.clsdict = {}
+    ns = st.clsdict if st.n_classes % 2 else {}
+    cls = QuantityMeta(name, (Quantity,), ns, **kw)
     return "ok " + cls.__name__
 
 
@@ -773,6 +779,60 @@ def _load_predefined(st):
     finally:
         _PAUSED[0] = False
     return "ok failed=0"
+
+
+class _BoundConv:
+    """a converter given as a bound method: every access yields a new, equal
+    object"""
+
+    def __init__(self, tc):
+        self.tc = tc
+
+    def convert(self, qty, to_unit):
+        return self.tc(qty, to_unit)
+
+
+@op("conv_obj")
+def _conv_obj(st, name, cls, rows):
+    from quantity import TableConverter
+    table = []
+    for row in rows.split(";"):
+        ft, k, o = row.split(":")
+        f, t = ft.split(">")
+        table.append((Unit(f), Unit(t), to_dec_or_frac(parse_rat(k)), to_dec_or_frac(parse_rat(o))))
+    tc = TableConverter(table)
+    n = len([k for k in st.obj if k[0] == "conv"])
+    if n % 2:
+        holder = _BoundConv(tc)
+        st.obj["conv", name] = lambda: holder.convert      # a fresh bound method each time
+    else:
+        st.obj["conv", name] = lambda: tc
+    st.obj["convname", name] = tc
+    return "ok"
+
+
+@op("conv_reg")
+def _conv_reg(st, cls, name):
+    _cls(st, cls).register_converter(st.obj["conv", name]())
+    return "ok"
+
+
+@op("conv_unreg")
+def _conv_unreg(st, cls, name):
+    _cls(st, cls).remove_converter(st.obj["conv", name]())
+    return "ok"
+
+
+@op("conv_list")
+def _conv_list(st, cls):
+    out = []
+    for c in _cls(st, cls).registered_converters():
+        hit = "?"
+        for k, v in st.obj.items():
+            if k[0] == "conv" and v() == c:
+                hit = k[1]
+        out.append(hit)
+    return "ok " + ",".join(out)
 
 
 @op("prefix")
